@@ -26,7 +26,7 @@ RULE = (
 ASSUMPTIONS = ["dense reference; forced measurement settings so that compile is a function",
                "compile(circuit, initial_state=s) aliasing s is outside the statement and not asserted"]
 REQUIRED_CLASSES = {"interleave": ["rewrite:group", "rewrite:unwrap", "rewrite:rmid", "rewrite:copy", "rewrite:assign_empty",
-                                   "call:assign_noise", "call:mc", "call:solve", "call:hybrid", "call:evo", "call:alt", "call:compile", "call:metric", "reuse_after_noisy_copy", "rewrite:noisy_copy"]}
+                                   "call:assign_noise", "call:mc", "call:solve", "call:hybrid", "call:evo", "call:alt", "call:copy_grow", "call:compile", "call:metric", "reuse_after_noisy_copy", "rewrite:noisy_copy"]}
 
 
 def compilers():
@@ -244,6 +244,33 @@ def check(case, sub="interleave"):
             guarded(sub, icls, mc.assign_noise)
             derived = True
             cl.add("call:mc")
+        elif a == "C:copy_grow":
+            # copies are independent objects: growing a copy (operation on a new register) must not change its source, and
+            # growing the source must not change a copy taken before
+            t = step[1]
+            src = C if step[2] == 0 else W
+            import graphiq.circuit.ops as ops
+
+            def grow(circ_):
+                r = circ_.n_emitters if t == "e" else circ_.n_photons
+                guarded(sub, icls, circ_.add, ops.Hadamard(register=r, reg_type=t))
+
+            counts = (src.n_emitters, src.n_photons, src.n_classical)
+            wires_src = wires_of(src)
+            X = guarded(sub, icls, src.copy)
+            grow(X)
+            if (src.n_emitters, src.n_photons, src.n_classical) != counts or wires_of(src) != wires_src:
+                raise Violation(sub, "copy-aliased", "copy", icls, "adding an operation on a new register to a copy changed the circuit it was copied from")
+            Y = guarded(sub, icls, src.copy)
+            Z = guarded(sub, icls, Y.copy)
+            grow(Y)
+            if (Z.n_emitters, Z.n_photons, Z.n_classical) != counts or wires_of(Z) != wires_src:
+                raise Violation(sub, "copy-aliased", "copy", icls, "adding an operation on a new register to a circuit changed a copy taken before")
+            for det in (0, 1):
+                sz = compile_state(sub, icls, Z, "stab", det, False)
+                if sz.n_qubits != n or not state_matches(sz, "stab", refs[det], n):
+                    raise Violation(sub, "copy-aliased", "copy", icls, "a copy taken before its source was grown compiles to another state")
+            cl.add("call:copy_grow")
         elif a == "T:solve":
             from graphiq.backends.stabilizer.compiler import StabilizerCompiler
             from graphiq.solvers.time_reversed_solver import TimeReversedSolver
@@ -337,6 +364,7 @@ def strat(tier):
         st.tuples(st.just("C:mc"), MAPSPEC).map(list),
         st.tuples(st.just("N:rewrite"), MAPSPEC, st.lists(st.sampled_from(["group", "unwrap", "rmid", "copy", "group"]), min_size=1, max_size=3)).map(list),
         st.tuples(st.just("N:rewrite"), MAPSPEC, st.lists(st.sampled_from(["group", "unwrap", "rmid", "copy", "group"]), min_size=1, max_size=3)).map(list),
+        st.tuples(st.just("C:copy_grow"), st.sampled_from("ep"), st.integers(0, 1)).map(list),
         st.just(["T:solve"]), st.just(["T:hybrid"]), st.just(["T:evo"]),
         st.tuples(st.just("T:alt"), st.integers(1, 2), st.integers(1, 2)).map(list),
     )
